@@ -180,6 +180,25 @@ def behaviour(res, rng, tier):
             cf.add(i, src_enum + "\npub fn run() { " + " ".join(lines) + " }", main_call=f"c{i}::run();")
             descs[str(i)] = src_enum
             i += 1
+            # field-less variants that are not unit variants (`Empty()`, `Braces {}`): no unit error for them, and without a
+            # unit variant Not / Neg return the enum itself, not a `Result` (added after seed C10-j)
+            src0 = f"#[derive(derive_more::{trait}, Debug, PartialEq, Clone)] pub enum E {{ Two(Tag, Tag), Empty(), Braces {{}} }}"
+            lines = []
+            if trait in SYM:
+                sym = SYM[trait]
+                m = method(trait)
+                lines.append(f'check("{i}", "empty-tuple", format!("{{:?}}", E::Empty() {sym} E::Empty()), format!("{{:?}}", Ok::<E, derive_more::BinaryError>(E::Empty())));')
+                lines.append(f'check("{i}", "empty-braces", format!("{{:?}}", E::Braces {{}} {sym} E::Braces {{}}), format!("{{:?}}", Ok::<E, derive_more::BinaryError>(E::Braces {{}})));')
+                lines.append(f'check("{i}", "empty-mismatch", format!("{{:?}}", E::Empty() {sym} E::Braces {{}}), format!("{{:?}}", Err::<E, _>(derive_more::BinaryError::Mismatch(derive_more::WrongVariantError::new("{m}")))));')
+                lines.append(f'check("{i}", "two", format!("{{:?}}", E::Two(t("a0"), t("a1")) {sym} E::Two(t("b0"), t("b1"))), format!("{{:?}}", Ok::<E, derive_more::BinaryError>(E::Two(t("(a0{sym}b0)"), t("(a1{sym}b1)")))));')
+            else:
+                pre = "!" if trait == "Not" else "-"
+                lines.append(f'let x: E = {pre}E::Two(t("a0"), t("a1")); check("{i}", "two-no-unit", format!("{{:?}}", x), format!("{{:?}}", E::Two(t("{pre}a0"), t("{pre}a1"))));')
+                lines.append(f'let y: E = {pre}E::Empty(); check("{i}", "empty-tuple", format!("{{:?}}", y), format!("{{:?}}", E::Empty()));')
+                lines.append(f'let z: E = {pre}E::Braces {{}}; check("{i}", "empty-braces", format!("{{:?}}", z), format!("{{:?}}", E::Braces {{}}));')
+            cf.add(i, src0 + "\npub fn run() { " + " ".join(lines) + " }", main_call=f"c{i}::run();")
+            descs[str(i)] = src0
+            i += 1
     d = C.scratch_crate("c10-ops", cf.source('unsafe { println!("DONE checks={} fails={}", CHECKS, FAILS); }'))
     try:
         rc, out, err = C.scratch_run(d)
